@@ -531,8 +531,12 @@ func (e *Engine) runPath(h *HarnessSpec, fn *ssa.Function, pool *TermPool, s *So
 	}
 	if ex.samples > 0 && hard == 0 && ex.incomplete == "" && witnessN > 0 {
 		// keep a model of this completed path as a reach witness
+		// the witness only feeds the translator validation: a solver timeout while asking for its model
+		// skips the witness, it does not make the (fully decided) path incomplete
 		if in, obs, ok := ex.modelFor(ex.pool.Bool(true)); ok {
 			ex.witness = &Violation{Harness: h.Name, ID: "witness", Inputs: in, Kinds: ex.inputKinds(), Obs: obs, Path: append([]Decision{}, ex.taken...)}
+		} else {
+			ex.incomplete = ""
 		}
 	}
 	return ex
